@@ -572,6 +572,7 @@ fn main() {
             "serial" => io_domains::search_serial(&mut rng, 2 * scale),
             "bridge" => io_domains::search_bridge(&mut rng, 40 * scale),
             "serial-path" => io_domains::search_serial_path(&mut rng),
+            "bus" => io_domains::search_bus(&mut rng, 3000 * scale),
             _ => { eprintln!("unknown domain"); std::process::exit(2) }
         };
         match r { Some(c) => { report(&c); std::process::exit(1) } None => { println!("{{\"found\":false,\"domain\":\"{}\"}}", dom); } }
@@ -592,6 +593,7 @@ fn main() {
             "serial" => io_domains::search_serial(&mut rng, 2 * scale),
             "bridge" => io_domains::search_bridge(&mut rng, 40 * scale),
             "serial-path" => io_domains::search_serial_path(&mut rng),
+            "bus" => io_domains::search_bus(&mut rng, 3000 * scale),
             _ => None,
         };
         match r { Some(c) => { report(&c); std::process::exit(1) } None => println!("{{\"found\":false}}") }
